@@ -41,6 +41,13 @@ def _snapshot():
     return tuple(snap)
 
 
+FROZEN = {}
+
+
+def _order_fields(o):
+    return {k: getattr(o, k, None) for k in ('qty', 'price', 'status', 'side', 'type', 'reduce_only', 'symbol', 'executed_at', 'canceled_at')}
+
+
 def install():
     if STATE['installed']:
         return
@@ -82,6 +89,8 @@ def install():
             after = _snapshot()
             if before != after or not (self.is_canceled or self.is_executed):
                 TRACE.append(('final-call-effect', oid, 'execute', [x for x in zip(before, after) if x[0] != x[1]][:3]))
+        elif not self.is_active and oid >= 0:
+            FROZEN[oid] = _order_fields(self)       # what the order looks like at the moment it became final
         TRACE.append(('exec_done', oid, pos.qty if pos is not None else None))
 
     def w_cancel(self, silent=False, source=''):
@@ -90,6 +99,8 @@ def install():
         before = _snapshot() if final else None
         TRACE.append(('cancel', oid, now(), final))
         o_cancel(self, silent, source)
+        if not final and not self.is_active and oid >= 0:
+            FROZEN[oid] = _order_fields(self)
         if final:
             after = _snapshot()
             if before != after:
@@ -153,7 +164,10 @@ def install():
                         'positions': {k: (p.qty, p.entry_price) for k, p in store.positions.storage.items()},
                         'metrics': res.get('metrics'),
                         'open_trades': {k: [getattr(o, '_vf_oid', -1) for o in t.orders] for k, t in store.completed_trades.tempt_trades.items()},
-                        'final_statuses': [o.status for o in ORDERS], 'via': [getattr(o, 'submitted_via', None) for o in ORDERS]}
+                        'final_statuses': [o.status for o in ORDERS], 'via': [getattr(o, 'submitted_via', None) for o in ORDERS],
+                        # an order that reached a final state must look the same at the end of the session
+                        'final_changed': [(oid, k, v, getattr(ORDERS[oid], k, None)) for oid, snap in sorted(FROZEN.items()) if oid < len(ORDERS)
+                                          for k, v in snap.items() if getattr(ORDERS[oid], k, None) != v]}
         if STATE['observe'] == 3:
             from jesse.routes import router
             stored = {}
@@ -545,6 +559,7 @@ def run_session(case):
         jh.CACHED_CONFIG.clear()     # process-wide memo of config look-ups: the subject of C11, reset for every other check
     del TRACE[:]
     del ORDERS[:]
+    FROZEN.clear()
     SPECS.clear()
     STATE['in_exec'] = 0
     STATE['terminating'] = False
